@@ -459,3 +459,9 @@ def run(ctx):
                 if match(want, on) is None:
                     bad7 = bad7 or "recorded open_notional is %s" % norm.show(on)[:160]
         ctx.inst("R05.7", "record:OpenPosition", bad7 is None and n7 > 0, ex7.fn.where(), bad7 or "%d stores of the in-flight record: leverage = msg.leverage, open_notional = msg.margin_amount * msg.leverage / decimals" % n7)
+
+    # ---------------------------------------------------------------- R05.8
+    # "the stored margin falls by that amount plus funding owed": the margin and the funding checkpoint move together at
+    # every position store (same rule as R11.4 / R04.6), otherwise funding is charged twice or skipped at the next action
+    ctx.rule("R05.8", "margin and funding checkpoint move together at every position store (same rule as R11.4)", 6)
+    pairing_instances(ctx, em, "R05.8")
